@@ -59,6 +59,18 @@ CHECKS = {
         note=TB + ' dets and ptb64 have no format-level theorem (decimal and transpose lemmas only); memory safety is measured by '
                   'ASan, not proved.',
         design='§4 C09'),
+    'C04': dict(
+        technique='Coq lemmas on the specification (detector form = XOR of named record forms under every assignment) + oracle '
+                  'correspondence on same-run tables, m2d and the CLI option matrix',
+        text='Proof: parity_form_is_xor_of_values (for every assignment of coins/faults/sweeps a detector or observable form evaluates '
+             'to the XOR of the measurement values it names), detector/observable step lemmas, generated frame-routine obligations. '
+             'Tie O: in one run of the real FrameSimulator (STORE_EVERYTHING_TO_MEMORY) every detector/observable row is recomputed '
+             'from that run\'s measurement-flip rows at the index sets the specification assigns; m2d on random measurement and sweep '
+             'tables must give parity(measured) xor the specification\'s noiseless parity under the same sweep bits (with and without '
+             'skip_reference_sample, appended observables); detect option matrix {append, prepend, obs_out, plain} x 6 formats x shot '
+             'counts decodes to identical bits; deterministic detection data identical in memory vs forced streaming.',
+        note=TB + ' OBSERVABLE_INCLUDE Pauli targets and --ran_without_feedback are not exercised here (the latter belongs to C13).',
+        design='§4 C04'),
 }
 
 PENDING = 'check not yet built in this round (see DESIGN.md §7 phasing); the Coq model for it is planned, not claimed'
